@@ -685,11 +685,12 @@ func runScenario(seed uint64, idx int, dbpath string, focus string) (sc *Scen, e
 		sc.role, sc.chain, sc.clean = d.role, d.chain, true
 		env.SwapsAllowed, env.PeerAllowed, env.PeerSuspicious, env.LiquidEnabled, env.BitcoinEnabled, env.MinAmountMsat = true, true, false, true, true, 100000*1000
 		for _, st := range d.steps {
-			if st != "start" && st != "request" && sc.id == nil && !extStepRunsFresh(st) {
+			if st != "start" && st != "request" && sc.id == nil && !extStepRunsFresh(st) && !isFreshExtraStep(st) {
 				break
 			}
 			sc.stepNamed(st)
 		}
+		runScenarioTail(sc, focus)
 		return sc, nil
 	}
 	// generator focus registered by per-property files (registerFocus in fsm_ext.go); additive hook
@@ -702,6 +703,7 @@ func runScenario(seed uint64, idx int, dbpath string, focus string) (sc *Scen, e
 	if sc.id == nil {
 		return sc, nil
 	}
+	defer runScenarioTail(sc, focus)
 	for i := 0; i < 10; i++ {
 		sc.advanceChain()
 		m := sc.current()
